@@ -118,7 +118,7 @@ Proof.
   apply andb_true_iff in Sh as [Sh _].
   unfold shape_ok in Sh. rewrite E in Sh.
   apply andb_true_iff in Sh as [Sh Sh3]. apply andb_true_iff in Sh as [Sh1 Sh2].
-  apply negb_true_iff in Sh2.
+  apply negb_true_iff in Sh2. apply orb_false_iff in Sh2 as [Sh2 _].
   (* the product state after the step is reachable, the control state normal *)
   assert (N' : normal c').
   { pose proof (cstep_normal c (abs_ev c (d_stored d) e) N) as H. rewrite E in H. exact H. }
